@@ -1035,6 +1035,11 @@ func (t *textCtx) emissionOf(ins ssa.Instruction) *emission {
 		}
 		return nil
 	}
+	if sc := c.StaticCallee(); sc != nil {
+		if wi, ti, isW := writerWrapper(t.w, t.w.unwrap(sc)); isW && wi < len(c.Args) && ti < len(c.Args) {
+			return &emission{ins, sinkOf(c.Args[wi]), t.eval(c.Args[ti], nil)}
+		}
+	}
 	pkg, name := stdCallee(c)
 	switch pkg {
 	case "io":
@@ -1386,7 +1391,7 @@ func (t *textCtx) accumItemPruned(l *loopInfo, phi *ssa.Phi, pruned map[[2]*ssa.
 
 func ruleR18_1(w *World, r *Report) {
 	const id = "R18.1"
-	r.Rule(id, "in every DIMACS/OPB printer function, the items a loop emits (string accumulation, writes to a writer or builder, elements handed to strings.Join) meet at a boundary that contains whitespace", 14)
+	r.Rule(id, "in every DIMACS/OPB printer function, the items a loop emits (string accumulation, writes to a writer or builder, elements handed to strings.Join) meet at a boundary that contains whitespace", 9)
 	t := newTextCtx(w)
 	keys := keyer{}
 	for _, fn := range w.allPrinterFns(r, id) {
